@@ -50,7 +50,7 @@ func (ctx Ctx) selectorExprType(e *ast.SelectorExpr) coq.Expr {
 		return coq.TypeIdent("disk.blockT")
 	}
 	if isIdent(e.X, "sync") &&
-		(isIdent(e.Sel, "Cond") || isIdent(e.Sel, "Mutex")) {
+		(isIdent(e.Sel, "Cond") || isIdent(e.Sel, "Mutex") || isIdent(e.Sel, "WaitGroup")) {
 		ctx.unsupported(e, "%s without pointer indirection", ctx.printGo(e))
 	}
 	return ctx.coqTypeOfType(e, ctx.typeOf(e))
@@ -102,6 +102,12 @@ func (ctx Ctx) coqTypeOfType(n ast.Node, t types.Type) coq.Type {
 		}
 		if t.Obj().Pkg().Name() == "disk" && t.Obj().Name() == "Disk" {
 			return coq.TypeIdent("disk.Disk")
+		}
+		if t.Obj().Pkg() != nil && t.Obj().Pkg().Name() == "sync" &&
+			(t.Obj().Name() == "Mutex" || t.Obj().Name() == "Cond" || t.Obj().Name() == "WaitGroup") {
+			// by value (pointers to these are handled above): GooseLang's
+			// locks, condition variables and wait groups are references
+			ctx.unsupported(n, "sync.%s without pointer indirection", t.Obj().Name())
 		}
 		if info, ok := ctx.getStructInfo(t); ok {
 			return coq.StructName(info.name)
